@@ -181,40 +181,80 @@ def d1(ctx, rep):
                   construct=f'check_marginal({col})')
         if hit:
             chain.append(cfg.node_containing(hit[0]))
-    from ..idioms import attr_stores, resolve
+    from ..idioms import attr_stores, private_closure, resolve
+    from ..boolcond import Conds, atoms_of, callee_exits, f_and, satisfiable
+
+    def kendall_args(owner, val):
+        """Argument expressions of kendalltau when `val` is element 0 / .statistic of a kendalltau(...) call, else None."""
+        val = resolve(owner.node, val) if isinstance(val, ast.AST) else None
+        call = None
+        if isinstance(val, ast.Subscript) and const_value(val.slice) == 0 and isinstance(val.value, ast.Call):
+            call = val.value
+        if isinstance(val, ast.Attribute) and val.attr in ('statistic', 'correlation') and isinstance(val.value, ast.Call):
+            call = val.value
+        if call is not None and prog.resolve(owner.module, call.func) == 'scipy.stats.kendalltau' and len(call.args) >= 2:
+            return call.args[:2]
+        return None
+
+    tau_anchor = None       # the statement of fit at which tau is assigned (directly or through a helper call)
+    tau_verdict = None      # True / False / None
     tstores = attr_stores(fn, 'tau')
-    taus = [s_ for s_, _v in tstores]
-    good = False
-    if len(taus) == 1:
-        val = resolve(fn.node, tstores[0][1]) if isinstance(tstores[0][1], ast.AST) else None
-        if isinstance(val, ast.Subscript) and const_value(val.slice) == 0 and isinstance(val.value, ast.Call) \
-                and prog.resolve(fn.module, val.value.func) == 'scipy.stats.kendalltau':
-            a = val.value.args
-            good = len(a) >= 2 and {getattr(a[0], 'id', None), getattr(a[1], 'id', None)} == {u, v}
-        if isinstance(val, ast.Attribute) and val.attr in ('statistic', 'correlation') and isinstance(val.value, ast.Call) \
-                and prog.resolve(fn.module, val.value.func) == 'scipy.stats.kendalltau':
-            a = val.value.args
-            good = len(a) >= 2 and {getattr(a[0], 'id', None), getattr(a[1], 'id', None)} == {u, v}
-    rep.check('D1.path', fn, taus[0] if taus else fn.node.name, good and dominates_exit(taus[0])[0],
-              'self.tau = kendalltau(U, V)[0] (the statistic, both columns)', 'tau is not the Kendall statistic of the two columns',
-              construct='tau assignment')
-    if taus:
-        chain.append(cfg.node_of(taus[0]))
+    if len(tstores) == 1:
+        a = kendall_args(fn, tstores[0][1])
+        tau_anchor = tstores[0][0]
+        if a is not None:
+            tau_verdict = {getattr(a[0], 'id', None), getattr(a[1], 'id', None)} == {u, v}
+        else:
+            tau_verdict = False
+    elif not tstores:
+        # a private helper called from fit with the two columns
+        from .c20 import get_alias
+        cal_names = {f.qualname for f in private_closure(ctx, calibrator(ctx))}
+        for c in [c for c in walk_no_nested(fn.node) if isinstance(c, ast.Call) and is_self_attr(c.func, fn.self_name)]:
+            h = prog.cls(BIV).lookup(c.func.attr)
+            if h is None or h.qualname in cal_names or not h.name.startswith('_'):
+                continue
+            hs = attr_stores(h, 'tau')
+            if len(hs) != 1:
+                continue
+            tau_anchor = stmt_of(c)
+            a = kendall_args(h, hs[0][1])
+            if a is None:
+                tau_verdict = False
+            else:
+                b = get_alias(ctx).bind(fn, c, h)
+                passed = set()
+                for x in a:
+                    for arg in b.get(getattr(x, 'id', None), []):
+                        passed.add(getattr(arg, 'id', None))
+                tau_verdict = passed == {u, v}
+    if tau_anchor is None or tau_verdict is None:
+        rep.undecided('D1.path', fn, fn.node.name, 'where fit assigns self.tau (directly or in a private helper) was not recognised', construct='tau assignment')
+    else:
+        rep.check('D1.path', fn, tau_anchor, tau_verdict and dominates_exit(tau_anchor)[0],
+                  'self.tau = kendalltau(U, V)[0] (the statistic, both columns)', 'tau is not the Kendall statistic of the two columns',
+                  construct='tau assignment')
+        chain.append(cfg.node_of(tau_anchor) or cfg.node_containing(tau_anchor))
     # NaN refusal: fit never returns normally when tau is NaN, and what stops it is a ValueError
-    from ..boolcond import Conds, atoms_of, f_and, satisfiable
     cd = Conds(prog, fn)
-    normal, rs, _rets = cd.exits()
+    hook = lambda c2, call2: callee_exits(ctx, c2, call2)
+    normal, rs, _rets = cd.exits(callee_hook=hook)
     keys = set(atoms_of(normal))
     for _s, c in rs:
         keys |= set(atoms_of(c))
     nan_atoms = [k for k in keys if 'isnan' in k]
     if not nan_atoms:
-        rep.bad('D1.path', fn, fn.node.name, 'fit never tests tau for NaN: a constant column leaves a silently invalid model', construct='NaN refusal')
+        helpers = [c for c in walk_no_nested(fn.node) if isinstance(c, ast.Call) and is_self_attr(c.func, fn.self_name) and c.func.attr.startswith('_')
+                   and c.func.attr != calibrator(ctx).name]
+        if helpers:
+            rep.undecided('D1.path', fn, helpers[0], 'no NaN test of tau visible in fit; a private helper is called whose exits were not derived', construct='NaN refusal')
+        else:
+            rep.bad('D1.path', fn, fn.node.name, 'fit never tests tau for NaN: a constant column leaves a silently invalid model', construct='NaN refusal')
     else:
         nan = ('atom', nan_atoms[0])
         leak = satisfiable(f_and(normal, nan))
         stops = [st for st, c in rs if satisfiable(f_and(c, nan))]
-        ok_exc = bool(stops) and all(raises([st], ('ValueError',)) for st in stops)
+        ok_exc = bool(stops) and all(raises([st], ('ValueError',)) or not isinstance(st, ast.Raise) for st in stops)
         if leak is None:
             rep.undecided('D1.path', fn, fn.node.name, 'NaN refusal: too many conditions', construct='NaN refusal')
         else:
